@@ -143,6 +143,9 @@ func (bs *blockState) tm(v Val, want string, pos token.Pos) Term {
 	if b, ok := v.(*BytesRef); ok {
 		return bs.matBytes(b, pos)
 	}
+	if mr, ok := v.(*MapRef); ok {
+		return bs.cellTerm(mr.cell, pos)
+	}
 	if p, ok := v.(*Ptr); ok {
 		if t, ok := bs.load(p, pos).(Term); ok {
 			return t
@@ -295,6 +298,8 @@ func (bs *blockState) store(p *Ptr, v Val, pos token.Pos) {
 		// interface / function / map valued slots: contents are not modelled
 		if t, ok := v.(Term); ok && t.Sort == want {
 			vt = t
+		} else if mr, ok := v.(*MapRef); ok && mr.cell.sort == want {
+			vt = bs.cellTerm(mr.cell, pos)
 		} else {
 			vt = ex.fresh("boxed", want)
 		}
@@ -511,10 +516,59 @@ func (bs *blockState) exec(ins ssa.Instruction) {
 		_, args := sortParts(s)
 		fr.vals[x] = Term{fmt.Sprintf("(mkSlice %s %s)", n.S, so.zeroArr(args[0])), s}
 	case *ssa.MakeMap:
-		fr.vals[x] = ex.fresh("map", so.sortOf(x.Type()))
+		ms := so.sortOf(x.Type())
+		c := ex.newCell("map", ms)
+		bs.st.cells[c] = Term{"mapEmpty_" + ms, ms}
+		fr.vals[x] = &MapRef{cell: c}
 	case *ssa.MapUpdate:
-		// map contents are not tracked (maps are only used for event grouping and registries)
+		// maps created here are tracked (empty + insertions); a map received from elsewhere is an immutable value and an update of it is not modelled
+		if mr, ok := fr.value(x.Map).(*MapRef); ok {
+			mt := x.Map.Type().Underlying().(*types.Map)
+			m := bs.cellTerm(mr.cell, pos)
+			k := bs.tm(fr.value(x.Key), so.sortOf(mt.Key()), pos)
+			v := bs.tm(fr.value(x.Value), so.sortOf(mt.Elem()), pos)
+			if k.Sort == so.sortOf(mt.Key()) && v.Sort == so.sortOf(mt.Elem()) {
+				bs.st.cells[mr.cell] = ex.define("map", Term{"(mapPut_" + m.Sort + " " + m.S + " " + k.S + " " + v.S + ")", m.Sort})
+			} else {
+				ex.unsup(pos, "map update with key sort %s / value sort %s", k.Sort, v.Sort)
+				bs.st.cells[mr.cell] = ex.fresh("map", m.Sort)
+			}
+		} else if _, isTerm := fr.value(x.Map).(Term); !isTerm {
+			ex.unsup(pos, "update of a map of unknown origin")
+		}
 	case *ssa.Lookup:
+		if mt, ok := x.X.Type().Underlying().(*types.Map); ok {
+			var m Term
+			switch mv := fr.value(x.X).(type) {
+			case *MapRef:
+				m = bs.cellTerm(mv.cell, pos)
+			case Term:
+				m = mv
+			}
+			ks, es := so.sortOf(mt.Key()), so.sortOf(mt.Elem())
+			if m.Sort == so.sortOf(x.X.Type()) && m.S != "" {
+				k := bs.tm(fr.value(x.Index), ks, pos)
+				if k.Sort == ks {
+					has, get := ex.P.mapFuncs(m.Sort, ks, es)
+					hasT := Term{"(" + has + " " + m.S + " " + k.S + ")", "Bool"}
+					getT := Term{"(" + get + " " + m.S + " " + k.S + ")", es}
+					// a missing key reads as the zero value; where the engine has no zero term for the element sort the value is arbitrary
+					var val Val = getT
+					if z := so.zeroOf(es); z != "" && !strings.HasPrefix(z, "zero_Opaque") {
+						val = ite(hasT, getT, Term{z, es})
+					} else {
+						fz := ex.fresh("lookup_missing", es)
+						val = ite(hasT, getT, fz)
+					}
+					if x.CommaOk {
+						fr.vals[x] = &Tuple{[]Val{val, hasT}}
+					} else {
+						fr.vals[x] = val
+					}
+					return
+				}
+			}
+		}
 		if x.CommaOk {
 			fr.vals[x] = &Tuple{[]Val{bs.freshOf(x.Type().(*types.Tuple).At(0).Type(), "lookup", pos), ex.fresh("ok", "Bool")}}
 		} else {
